@@ -3,7 +3,7 @@ import CrabModel.Scalar.Interval
 
 /-
   Model of `value_partitioning_domain<NumDomain>` (include/crab/domains/value_partitioning_domain.hpp,
-  after repo commits dfa080f, 335d5b6, eb25fa6, 3486f73) over an ARBITRARY base domain.
+  after repo commits dfa080f, 335d5b6, eb25fa6, 3486f73, 8f4c9c7) over an ARBITRARY base domain.
 
   The base is an `LDom S` together with the one query the functor makes on it: `dom[x]`, the
   interval of the partitioning variable (`VDom.itvOf`), whose only law is "a bottom interval means
@@ -11,10 +11,10 @@ import CrabModel.Scalar.Interval
   `m_partitions` of (interval of `m_variable`, base value), in the order of the vector.
 
   What the code maintains (proved: `VP.Inv`): the vector is never empty and has exactly one element
-  when there is no partitioning variable.  What its comment promises ("partitions are sorted and
-  they don't overlap") is NOT maintained: the merge loop of `update_partitions` can leave
-  overlapping intervals (Props/C03Functors2.lean, `C03.vpart_update_overlap`), which makes the
-  element-wise `&`, `&&` unsound and `<=` irreflexive.
+  when there is no partitioning variable.  `update_partitions()` is the code after repo commit 8f4c9c7 (intervals sorted
+  and separated afterwards: `C03.vpart_update_disjoint`); the merge loop of the pinned tree is kept
+  as `mergeAdjOld` / `updatePartsOld` for the counterexample theorems (it could leave overlapping
+  intervals, which made the element-wise `&`, `&&` unsound and `<=` irreflexive).
 
   Abstractions: `std::sort` (unstable) is a stable insertion sort: the order of partitions with the
   same lower bound can differ (they are merged right after unless one interval is empty);
@@ -116,12 +116,25 @@ def sortParts : List (Part D) → List (Part D)
   | [] => []
   | p :: ps => insertPart p (sortParts ps)
 
-/-- the merge loop (from the back): a partition is joined with its successor when
-    `it->ub >= next->lb`; the merged partition is NOT compared with its new successor -/
+/-- `left_it->join(*it)` while the grown interval reaches the next partition (the inner loop of
+    the overlapping case of `operator|=`, and — after repo commit 8f4c9c7 — of the merge loop of
+    `update_partitions()`) -/
+def absorb (p : Part D) : List (Part D) → Part D × List (Part D)
+  | [] => (p, [])
+  | q :: qs => if Bound.ge p.key.ub q.key.lb then absorb (Part.join p q) qs else (p, q :: qs)
+
+/-- the merge loop (from the back) after repo commit 8f4c9c7: a partition absorbs its successors
+    `while (next_it != end && it->ub >= next_it->lb)` -/
 def mergeAdj : List (Part D) → List (Part D)
   | [] => []
+  | p :: ps => (absorb p (mergeAdj ps)).1 :: (absorb p (mergeAdj ps)).2
+
+/-- PINNED-TREE behaviour (before 8f4c9c7): `if (it->ub >= next->lb)`: the merged partition is
+    NOT compared with its new successor; kept for the counterexample theorems only -/
+def mergeAdjOld : List (Part D) → List (Part D)
+  | [] => []
   | p :: ps =>
-    match mergeAdj ps with
+    match mergeAdjOld ps with
     | [] => [p]
     | q :: qs => if Bound.ge p.key.ub q.key.lb then Part.join p q :: qs else p :: q :: qs
 
@@ -131,6 +144,15 @@ def updateParts (a : VP D) : VP D :=
   | some x =>
     let r := refreshGo x 0 a.parts
     if r.2 then ⟨a.var, r.1⟩ else ⟨a.var, mergeAdj (sortParts r.1)⟩
+
+/-- `update_partitions()` of the pinned tree (fixed by repo commit 8f4c9c7; replay line in
+    corpus/h_dom2/vpart_overlap.ops and in the header of Props/C03Functors2.lean) -/
+def updatePartsOld (a : VP D) : VP D :=
+  match a.var with
+  | none => a
+  | some x =>
+    let r := refreshGo x 0 a.parts
+    if r.2 then ⟨a.var, r.1⟩ else ⟨a.var, mergeAdjOld (sortParts r.1)⟩
 
 /-! ### lattice operations -/
 
@@ -187,12 +209,6 @@ def widenWith (iw : Itv → Itv → Itv) (w : D.B → D.B → D.B) (a b : VP D) 
   else if isBottom b || isTop a then a
   else applyBin iw w a b
 def widen (a b : VP D) : VP D := widenWith Itv.widen D.widen a b
-
-/-- the inner loop of the overlapping case of `operator|=`: the following partitions of the left
-    operand that the grown interval reaches are absorbed -/
-def absorb (p : Part D) : List (Part D) → Part D × List (Part D)
-  | [] => (p, [])
-  | q :: qs => if Bound.ge p.key.ub q.key.lb then absorb (Part.join p q) qs else (p, q :: qs)
 
 /-- one right partition `r` of the loop of `operator|=` on the same variable, from the position
     `left_it` on; `k` continues with the next right partition from the new position -/
